@@ -4,7 +4,7 @@ CONFIG = {
     "streams": [{
         "name": "bcl.diff", "harness": "bclh", "driver": "drv_bcl",
         "env": {"BCL_STREAM": "diff", "BCL_SHARDS": "16"},
-        "n": {"quick": 16 * 16000, "thorough": 16 * 120000, "search": 16 * 8000},
+        "n": {"quick": 16 * 16000, "thorough": 16 * 80000, "search": 16 * 8000},
         "shards": {"quick": 16, "thorough": 16, "search": 16},
         "flush": True, "crash_signature": "diff-crash-or-timeout",
         "timeout_s": 3000, "driver_timeout_s": 3000,
